@@ -18,8 +18,11 @@ else
 fi
 timeout 1500 make -k -j16 > .build.log 2>&1
 rc=$?
-# which .v files have no up-to-date .vo ?
+# which .v files have no up-to-date .vo ?  (a failed target may leave a stale .vo behind: remove it)
 : > .failed
+for vo in $(sed -n 's/^make.*\*\*\* \[.*: \(.*\.vo\)\] Error.*/\1/p' .build.log); do
+  rm -f "$vo" "${vo%.vo}.vok" "${vo%.vo}.vos" "${vo%.vo}.glob"
+done
 for v in $(find Base Gen Model Spec Proofs Bridge Properties Extract -name '*.v' 2>/dev/null | sort); do
   vo="${v%.v}.vo"
   if [ ! -f "$vo" ] || [ "$v" -nt "$vo" ]; then echo "$v" >> .failed; fi
